@@ -15,7 +15,7 @@ from vlib import nondet
 from vlib.dsl import *
 from vlib.build import build
 
-NDES = 8
+NDES = 9
 
 
 def design(sel, w):
@@ -48,6 +48,9 @@ def design(sel, w):
     elif sel == 6:  # two sub-bundles of one nested bundle on swapped ports + whole nested references
         insts = [Inst("i", two, {"p": BRef("nn", ("b",)), "q": BRef("nn", ("c",)), "g": BRef("nn", ("z",))}),
                  Inst("j", two, {"p": BRef("nn", ("c",)), "q": BRef("nn", ("b",)), "g": Sig("t")})]
+    elif sel == 8:  # a loop made of port references only (no signal, no open port): the alphabetically first instance has two ports in it
+        insts = [Inst("i", three, {"a": PRef("j", "a"), "b": PRef("i", "a"), "c": Sig("s"), "g": Sig("t")}),
+                 Inst("j", three, {"a": PRef("i", "b"), "b": Sig("s"), "c": Sig("s"), "g": Sig("t")})]
     else:           # shared no-connects and named no-connects on several ports
         insts = [Inst("i", three, {"a": NC(0), "b": NC(0), "c": NC(1, "n1"), "g": Sig("t")}),
                  Inst("j", three, {"a": NC(1, "n1"), "b": Sig("s"), "c": NC(0), "g": Sig("t")})]
@@ -99,7 +102,7 @@ def real_processes_differ(sel, w, n=24):
          tiers={"quick": {"timeout": 170, "pre": ["w == 1", "c3 == 0 and c4 == 0 and c5 == 0"], "parts": parts_product(parts_over("sel", range(NDES)), parts_over("c0", range(3)))},
                 "thorough": {"timeout": 1500, "parts": parts_product(parts_over("sel", range(NDES)), parts_over("c0", range(3)), parts_over("c1", range(3)))}},
          sample=(0, 1, 1, 0, 0, 0, 0, 0),
-         bounds=f"{NDES} designs exercising every set-iterating rewriting site (one bundle / sub-bundle reference on several ports of one instance, port references feeding several ports, fans, anonymous bundles, slices and concats of references, shared and named no-connects); choice vector of 6 (quick: 3) ternary choices = every order of every set with up to 3 elements met in the first 6 (quick: 3) choice points",
+         bounds=f"{NDES} designs exercising every set-iterating rewriting site (one bundle / sub-bundle reference on several ports of one instance, port references feeding several ports, fans, a pure port-reference loop, anonymous bundles, slices and concats of references, shared and named no-connects); choice vector of 6 (quick: 3) ternary choices = every order of every set with up to 3 elements met in the first 6 (quick: 3) choice points",
          generalises="the iteration order of every set created by the connectable classes (symbolic choice vector)",
          outside="dict order (insertion ordered by the language); thread scheduling; sets with more than 3 elements; later iterations than the choice vector covers")
 def order_independent(sel, w, c0, c1, c2, c3, c4, c5):
